@@ -150,7 +150,8 @@ func Groups(thorough bool) []Group {
 			}
 		}
 		for _, succ := range []string{"yes", "no"} {
-			for _, args := range [][]string{nil, {"ls"}, {"ls", "-l", "my file"}, {"sh", "-c", strings.Repeat("A", 257), strings.Repeat("long arg ", 300)}, manyArgs(255), manyArgs(256), manyArgs(300)} {
+			for _, args := range [][]string{nil, {"ls"}, {"ls", "-l", "my file"}, {"sh", "-c", strings.Repeat("A", 257), strings.Repeat("long arg ", 300)}, manyArgs(255), manyArgs(256), manyArgs(300),
+				{"mount", "UUID=0a1b-2c3d", "/mnt"}, {"make", "ARCH=arm64", "SYSCALL=x", "defconfig"}, {"docker", "run", "-e", "PUID=1000", "-e", "PGID=1000", "msg=audit(1.1:1):", "type=EXECVE"}} {
 				for _, np := range []int{0, 1, 2} {
 					for _, eoe := range []bool{false, true} {
 						if !thorough && eoe && np == 2 {
